@@ -630,6 +630,15 @@ def run(ctx):
     if check_cmp(ctx, "fixture", {"harness": "c07", "line": fx_line}, fx, fx_line, H):
         ctx.sample({"kind": "fixture", "answer": fx[:400]})
 
+    # ---- VarDCT frames (synthetic JPEG transcodes; several groups for the larger ones) -----------
+    import feedlib as fl
+    for label, data, _jpeg in fl.synth_vardct(ctx, 3 if q else 30, max_blocks=40 * 40):
+        vl = cmp_line(data.hex(), 0, reps, 2, 4)
+        vr = run_lines_robust(H, [vl], per_line_timeout=900, batch=1)[0]
+        ctx.case(("vardct", label), True)
+        ctx.count("kind:vardct")
+        check_cmp(ctx, "vardct", {"harness": "c07", "line": vl if len(vl) < 20000 else vl[:20000] + "...", "spec": label}, vr, vl, H)
+
     progress(ctx, 'corpus and fixture done')
     # ---- encoder-made images -----------------------------------------------------------------
     if not ok:
